@@ -155,7 +155,9 @@ ConnValues(key) ==
   Generic \cup
   CASE key \in {"my_addr", "peer_addr"} -> {S("192.168.0.2"), S("192.168.0.1"), S("10.9.9.9"), S("alice.example"), S("2001:db8::2"), S("not an address")}
     [] key \in {"my_auth", "peer_auth"} -> {Mp([psk |-> S("k")]), Mp([id |-> S("192.168.0.2"), psk |-> S("k")]), Mp([id |-> S("2001:db8::7"), psk |-> S("k")]),
-                                             Mp([id |-> S("host.example"), privkey |-> S("PEM-PRIVATE")]), Mp([id |-> S("bob@example.org"), pubkey |-> S("PEM-PUBLIC")]),
+                                             Mp([id |-> S("host.example"), privkey |-> S("PEM-PRIVATE")]),
+                                             \* names that a resolver can turn into an address are names all the same (FQDN), not addresses
+                                             Mp([id |-> S("alice.example"), psk |-> S("k")]), Mp([id |-> S("10.1"), psk |-> S("k")]), Mp([id |-> S("1234"), psk |-> S("k")]), Mp([id |-> S("bob@example.org"), pubkey |-> S("PEM-PUBLIC")]),
                                              Mp([id |-> S("a"), privkey |-> S("garbage")]), Mp([id |-> S("a"), pubkey |-> I(7)]), Mp([id |-> I(5), psk |-> S("k")]),
                                              Mp([id |-> S("a"), psk |-> I(5)]), Mp([id |-> Lst(<<>>), psk |-> S("k")]), Mp(<<>>)}
     [] key \in {"lifetime", "dpd"} -> {I(0), I(1), I(86400), S("60"), S("6o")}
